@@ -154,6 +154,78 @@ func c13Loads(sum *runSummary, r *rng, id int, tier string) int {
 	return id
 }
 
+// follow-up queries after a cancelled run: each exercises nested trampolines that fail or are
+// exhausted, one to three levels deep; expected renderings are fixed (they do not depend on the library)
+var c13Follow = []struct {
+	q    string
+	n    int // number of answers
+	want string
+}{
+	{q: `\+ fail .`, n: 1},
+	{q: `\+ member(x, [a,b]) .`, n: 1},
+	{q: `findall(X, member(X, [1,2]), L) .`, n: 1},
+	{q: `findall(X, (member(X, [1,2,3]), \+ X = 2), L) .`, n: 1},
+	{q: `findall(L0, (member(Y, [a,b]), findall(Y-Z, (member(Z, [1,2]), \+ Z = 1), L0)), L) .`, n: 1},
+	{q: `\+ (findall(X, (member(X, [1,2]), \+ \+ X = 1), L), L = []) .`, n: 1},
+	{q: `member(X, [1,2]), \+ \+ findall(Q, fail, []) .`, n: 2},
+}
+
+func c13FollowRun(ip *prolog.Interpreter, q string) string {
+	res := make(chan string, 1)
+	go func() {
+		wall, cancel := context.WithTimeout(context.Background(), 2*time.Second)
+		defer cancel()
+		names := []string{"X", "L"}
+		out := runQueryCtx(wall, ip, 5, names, q)
+		var rows []string
+		for _, a := range out.Answers {
+			var kv []string
+			for _, n := range names {
+				if t, ok := a[n]; ok {
+					kv = append(kv, n+":"+t.String())
+				}
+			}
+			rows = append(rows, "{"+strings.Join(kv, " ")+"}")
+		}
+		s := "[" + strings.Join(rows, " ") + "]"
+		if out.Err != nil || out.GoErr != "" {
+			s += fmt.Sprint(" error: ", out.Err, out.GoErr)
+		}
+		res <- s
+	}()
+	select {
+	case got := <-res:
+		return got
+	case <-time.After(3 * time.Second):
+		return "did not return within 3 s"
+	}
+}
+
+// c13FollowInit: what the follow-up queries answer in a process in which nothing was cancelled yet
+// (checked against the answers written next to them)
+func c13FollowInit() {
+	for i := range c13Follow {
+		got := c13FollowRun(prolog.New(nil, nil), c13Follow[i].q)
+		if strings.Count(got, "{") != c13Follow[i].n {
+			fatal("follow-up %s: %s on a fresh process", c13Follow[i].q, got)
+		}
+		c13Follow[i].want = got
+	}
+}
+
+func c13FollowUps(same *prolog.Interpreter) string {
+	for round := 0; round < 2; round++ {
+		for _, ip := range []*prolog.Interpreter{same, prolog.New(nil, nil)} {
+			for _, f := range c13Follow {
+				if got := c13FollowRun(ip, f.q); got != f.want {
+					return fmt.Sprintf("%s  gave %s, want %s", f.q, got, f.want)
+				}
+			}
+		}
+	}
+	return ""
+}
+
 const c13Header = "From Coq Require Import ZArith List String.\nFrom PV Require Import Model.Term Model.Machine Model.Boot Model.MachineCheck.\nImport ListNotations.\nOpen Scope Z_scope.\nOpen Scope string_scope.\n"
 
 func runC13(outDir string, seed int64, tier string) {
@@ -168,6 +240,7 @@ func runC13(outDir string, seed int64, tier string) {
 	id := 0
 	stuck := 0
 	seen := map[string]bool{}
+	c13FollowInit()
 	id = c13Loads(sum, r.split(), id, tier)
 	for pi := 0; pi < nProg && stuck < 3; pi++ {
 		q := renumber(c13Queries(r.split()))
@@ -252,6 +325,15 @@ func runC13(outDir string, seed int64, tier string) {
 			if len(chk.Answers) != 2 || chk.Answers[0]["X"].I != 1 || chk.Answers[1]["X"].I != 2 {
 				sum.Failures = append(sum.Failures, failure{ID: id, Class: "cancel:interpreter-unusable-afterwards", Input: desc,
 					Observed: fmt.Sprint(chk.Answers, chk.Err, chk.GoErr), Expected: "X = 1 ; X = 2"})
+			}
+			// ... and so does every other one: nothing of the cancelled run may resurface in later
+			// queries (nested trampolines of \+ and findall/3 that fail or run to exhaustion), on this
+			// interpreter or on a new one
+			if cancelled {
+				if bad := c13FollowUps(p); bad != "" {
+					sum.Failures = append(sum.Failures, failure{ID: id, Class: "cancel:later-queries-disturbed", Input: desc, Observed: bad, Expected: "the answers these queries give on a fresh process"})
+				}
+				sum.count("follow-ups:run")
 			}
 			if len(sum.Samples) < 8 && id%9 == 0 {
 				sum.Samples = append(sum.Samples, map[string]interface{}{"query": q.text(), "cancel_at_poll": n, "ending": ending, "answers_before": len(out.Answers), "polls_after_instant": over})
